@@ -146,11 +146,150 @@ fn permissionless_instructions_leave_settings_alone(r: &Rich, l: &mut Local) -> 
     Ok(())
 }
 
+/// Authority rotations: a `set_*_authority` instruction signed by the current authority must (1) change nothing but one 32-byte field of
+/// one account, which then holds the new key, and (2) move the right with it: afterwards an instruction of that role signed by the OLD
+/// authority fails (the recorded authority is the new one) and succeeds when signed by the new one (positive control, counted).
+struct Mini {
+    w: World,
+    cfg: usize,
+    p0: usize,
+    p1: usize,
+    pa: usize,
+    af_index: u16,
+    af_delegate: Pubkey,
+    trader: usize,
+    spare_mint: Pubkey,
+}
+
+/// a small world of its own (config with extension, fee tier, two static pools with a reward each, an adaptive tier with a delegate and
+/// a pool in it): independent of the rich world, whose construction itself uses the setters under test
+fn mini_world(spec: &RichSpec) -> Option<Mini> {
+    crate::rt::quiet_panics(true);
+    let r = std::panic::catch_unwind(|| {
+        let mut w = World::new(1_700_000_000);
+        let ts = spec.tick_spacing;
+        let cfg = w.init_config(spec.protocol_fee_rate.min(2500));
+        w.init_config_extension(cfg);
+        let ix = w.ix_set_config_feature_flag(cfg, whirlpool::state::ConfigFeatureFlag::TokenBadge(true));
+        w.must("feature flag", &ix);
+        let ix = w.ix_init_fee_tier(cfg, ts, spec.fee_rate.min(60000));
+        w.must("fee tier", &ix);
+        let (mx, my, mz, spare, rm) = (w.create_spl_mint(), w.create_spl_mint(), w.create_spl_mint(), w.create_spl_mint(), w.create_spl_mint());
+        let price = whirlpool::math::sqrt_price_from_tick_index(0) + 1;
+        let p0 = w.init_pool(cfg, &mx, &my, ts, price).ok()?;
+        let p1 = w.init_pool(cfg, &mx, &mz, ts, price).ok()?;
+        let af_index = 1024 + ts;
+        let af_delegate = w.new_signer();
+        let auth = w.new_signer();
+        let ix = w.ix_init_adaptive_fee_tier(cfg, af_index, ts, auth, af_delegate, spec.fee_rate.min(60000), &crate::world2::AfConstants::sane(ts));
+        w.must("adaptive tier", &ix);
+        let pa = w.init_pool_adaptive(cfg, &mx, &my, af_index, ts, auth, price, None).ok()?;
+        let trader = w.add_user();
+        for m in [&mx, &my, &mz] {
+            w.user_token(trader, m, 1 << 50);
+        }
+        for p in [p0, p1] {
+            let idx = w.init_reward(p, &rm, false).ok()?;
+            let vault = w.pools[p].rewards[idx].vault;
+            w.mint_to(&rm, &vault, 1 << 50);
+        }
+        Some(Mini { w, cfg, p0, p1, pa, af_index, af_delegate, trader, spare_mint: spare.key })
+    })
+    .ok()
+    .flatten();
+    crate::rt::quiet_panics(false);
+    r
+}
+
+fn authority_rotations(spec: &RichSpec, l: &mut Local) -> Result<(), String> {
+    let Some(mut r) = mini_world(spec) else {
+        l.count("rotation/mini_world_refused");
+        return Ok(());
+    };
+    let newk = r.w.new_signer();
+    let w = &r.w;
+    let c = &w.configs[r.cfg];
+    let treasury_a = w.user_token_existing(r.trader, &w.pools[r.p0].mint_a.key);
+    let treasury_b = w.user_token_existing(r.trader, &w.pools[r.p0].mint_b.key);
+    let spare_badge_mint = r.spare_mint;
+    // (name, rotation instruction, an instruction of that role built for the OLD authority, the old authority)
+    let mut ra = w.ix_set_reward_authority(r.p0, 0, newk);
+    ra.accounts[1].is_signer = true;
+    let mut emissions = w.ix_set_reward_emissions(r.p0, 0, 1u128 << 69, false);
+    emissions.accounts[1].is_signer = true;
+    let list: Vec<(&str, Instruction, Instruction, Pubkey)> = vec![
+        ("set_fee_authority", w.ix_set_fee_authority(r.cfg, newk), w.ix_set_fee_rate(r.p0, 1234), c.fee_authority),
+        ("set_collect_protocol_fees_authority", w.ix_set_collect_protocol_fees_authority(r.cfg, newk), w.ix_collect_protocol_fees(r.p0, treasury_a, treasury_b, true), c.collect_protocol_fees_authority),
+        ("set_reward_emissions_super_authority", w.ix_set_reward_emissions_super_authority(r.cfg, newk), w.ix_set_reward_authority_by_super(r.p1, 0, c.reward_emissions_super_authority), c.reward_emissions_super_authority),
+        ("set_reward_authority", ra, emissions, w.reward_authority(r.p0)),
+        ("set_reward_authority_by_super_authority", w.ix_set_reward_authority_by_super(r.p1, 0, newk), {
+            let mut e = w.ix_set_reward_emissions(r.p1, 0, 1u128 << 69, false);
+            e.accounts[1].is_signer = true;
+            e
+        }, w.reward_authority(r.p1)),
+        ("set_config_extension_authority", w.ix_set_config_extension_authority(r.cfg, newk), w.ix_set_token_badge_authority(r.cfg, c.token_badge_authority), c.config_extension_authority),
+        ("set_token_badge_authority", w.ix_set_token_badge_authority(r.cfg, newk), w.ix_init_token_badge(r.cfg, &spare_badge_mint), c.token_badge_authority),
+        ("set_delegated_fee_authority", w.ix_set_delegated_fee_authority(r.cfg, r.af_index, newk), w.ix_set_fee_rate_by_delegate(r.pa, r.af_delegate, 2345), r.af_delegate),
+    ];
+    for (name, rot, follow, old) in list {
+        // the follow-up must work before the rotation, else the case says nothing
+        let mut w0 = w.clone();
+        if !w0.exec(&follow).ok() {
+            l.count(&format!("VACUOUS_rotation_followup_failed/{name}"));
+            continue;
+        }
+        let mut w1 = w.clone();
+        let o = w1.exec(&rot);
+        if !o.ok() {
+            l.count(&format!("VACUOUS_rotation_failed/{name}/{}", o.code().unwrap_or(0)));
+            continue;
+        }
+        // (1) exactly one 32-byte field of one program account changed, and it holds the new key
+        let mut changed = vec![];
+        for (k, before) in w.bank.accounts.iter() {
+            if before.owner != WP {
+                continue;
+            }
+            let after = &w1.bank.accounts[k];
+            if after.data != before.data {
+                let diff: Vec<usize> = (0..before.data.len().min(after.data.len())).filter(|i| before.data[*i] != after.data[*i]).collect();
+                changed.push((*k, diff, after.data.clone()));
+            }
+        }
+        if changed.len() != 1 {
+            return Err(format!("{name}: the rotation changed {} program accounts", changed.len()));
+        }
+        let (k, diff, after) = &changed[0];
+        let (lo, hi) = (*diff.first().unwrap(), *diff.last().unwrap());
+        let at = (0..=lo).rev().find(|o| o + 32 > hi && after.len() >= o + 32 && after[*o..*o + 32] == newk.to_bytes());
+        if at.is_none() {
+            return Err(format!("{name}: account {k} changed in bytes {lo}..={hi}, which is not a single 32-byte field holding the new authority"));
+        }
+        // (2) the right moved with the field
+        let mut w_old = w1.clone();
+        if w_old.exec(&follow).ok() {
+            return Err(format!("{name}: after the rotation an instruction of that role signed by the OLD authority still succeeds"));
+        }
+        let mut as_new = follow.clone();
+        for m in as_new.accounts.iter_mut() {
+            if m.pubkey == old && m.is_signer {
+                m.pubkey = newk;
+            }
+        }
+        let mut w_new = w1.clone();
+        let ok = w_new.exec(&as_new).ok();
+        l.count(&format!("rotation/{}", if ok { "new_authority_accepted" } else { "new_authority_refused(positive control)" }));
+        l.nontrivial(hash_of(&(name, "rotation", hash_of(spec))));
+    }
+    Ok(())
+}
+
 /// instructions for which a one-token delegate is a documented alternative to the holder and nothing else in the
 /// instruction needs the holder (positive control of the delegate path)
 const DELEGATE_POSITIVE: &[&str] = &["increase_liquidity", "decrease_liquidity", "increase_liquidity_v2", "decrease_liquidity_v2", "collect_fees", "collect_fees_v2", "collect_reward"];
 
 pub fn check_world(spec: &RichSpec, l: &mut Local) -> Result<(), String> {
+    authority_rotations(spec, l)?;
     let Some(r) = Rich::try_build(spec) else {
         l.count("world_build_refused");
         return Ok(());
@@ -385,7 +524,7 @@ pub fn def() -> CheckDef {
                enumerated on every world: baseline call must succeed, then mutants: right key without signature, another key signing with its own token accounts (and with the position / bundle token of its OWN position, and with a forged proof of holding: an SPL Multisig created through the real token program (either one) whose bytes read as a token account with one token of the position's mint), \
                an outsider signing while one program-owned account slot names a sibling object whose recorded authority the outsider is, \
                every other role's authority, delegate approved through the real token program with amount 0 / 1 / 2, position (bundle) token moved to another \
-               holder (old holder must fail; new holder and 1-token delegate are positive controls); instructions that need nobody's authority (migrate_repurpose_reward_authority_space, outsiders' swaps, tick-array initialisation, update_fees_and_rewards) on every pool incl. one with non-zero control flags must leave the *settings view* of every program account unchanged (whirlpools without trading state, oracles without variables, all other accounts entirely).  Distinct non-trivial = (instruction, mutant kind, world).",
+               holder (old holder must fail; new holder and 1-token delegate are positive controls); instructions that need nobody's authority (migrate_repurpose_reward_authority_space, outsiders' swaps, tick-array initialisation, update_fees_and_rewards) on every pool incl. one with non-zero control flags must leave the *settings view* of every program account unchanged; authority rotations (eight set_*_authority instructions): the rotation changes exactly one 32-byte field of one account to the new key, afterwards the old authority is refused for an instruction of that role (the new one accepted: positive control); every program account's settings view (whirlpools without trading state, oracles without variables, all other accounts entirely).  Distinct non-trivial = (instruction, mutant kind, world).",
         assumptions: vec!["nsvm runtime as in DESIGN.md §5", "delegate/new-holder acceptance is only demanded for liquidity and collect instructions (others need the holder for unrelated reasons, e.g. closing the token account)"],
         subs: vec![sub("table", 1600, 20_000, rich_spec_strategy, |c: &RichSpec, l: &mut Local| check_world(c, l))],
     }
